@@ -13,7 +13,7 @@ from ..common import rng_for, b2j
 
 LEVEL = "exploration"
 SHARDS = {"quick": 1, "thorough": 16}
-REQUIRED = ("same_name_class_pairs", "auto_described_pairs", "equal_pairs", "unequal_pairs", "reprs", "pairs_with_move_fields", "pairs_with_em", "pairs_with_described",
+REQUIRED = ("pattern_packet_comparisons", "embedded_class_comparisons", "same_name_class_pairs", "auto_described_pairs", "equal_pairs", "unequal_pairs", "reprs", "pairs_with_move_fields", "pairs_with_em", "pairs_with_described",
             "pairs_after_pack", "different_class_pairs", "nested_leaf_changes", "parsed_vs_constructed", "non_packet_comparisons")
 MIN_NONTRIVIAL = 150
 RULE = {
@@ -168,6 +168,25 @@ def one_tree(run, bench, rng, raw, pv, feats):
         feat_count()
         if not expect(run, bench, "parsed-twice", r1.pkt, r2.pkt, True, w):
             return
+        # totality against packets that came to be in another way: the all-Any pattern packet of the class (its slots are
+        # filled differently from a parsed packet's) - only "never raises, booleans, != negates ==" is judged here
+        pat = None
+        if ds:
+            # what a described (computed) field of a pattern packet reads as - the length of an Any placeholder - is not fixed by
+            # any statement: such classes are left out
+            run.count("pattern_packet_skipped_described_class")
+        else:
+            try:
+                from bisturi import pattern_matching as pm
+                pat = pm.anything_like(cls)
+            except Exception:
+                run.count("pattern_packet_not_buildable")
+        if pat is not None:
+            for x, y, tag in ((pat, r1.pkt, "pattern==parsed"), (r1.pkt, pat, "parsed==pattern"), (pat, pat, "pattern==pattern")):
+                if cmp_safe(run, x, y, dict(w, pair="pattern packet (anything_like) vs parsed packet", direction=tag)) is None:
+                    return
+                run.count("pattern_packet_comparisons")
+            check_repr(run, pat, dict(w, of="pattern packet"))
         try:
             c1 = monitors.build_packet(bench.loaded, v, pv, "kwargs")
             c2 = monitors.build_packet(bench.loaded, v, pv, "attrs")
@@ -292,9 +311,57 @@ def same_name_other_class(run, bench, rng, directory):
         b2.close()
 
 
+EMBED_SRC = render.HEADER + """
+class Pt(Packet):
+    x = Int(1)
+    y = Int(1)
+
+
+class P3(Packet):
+    __bisturi__ = %r
+    p = Ref(Pt(x=1, y=2), embed=True)
+    z = Int(1)
+
+
+class P3at(Packet):
+    __bisturi__ = %r
+    h = Int(1)
+    p = Ref(Pt, embed=True)
+    z = Int(1).at(4)
+"""
+
+
+def embed_probe(run):
+    """Packets whose class embeds another packet (its fields are borrowed; the reference's own slot is filled only in built
+    packets): comparisons between built and parsed packets and repr never raise.  What such packets compare to is not judged."""
+    d = common.scratch_dir("bvf_c20e_")
+    try:
+        for opts in ({}, {"generate_for_pack": False, "generate_for_unpack": False}):
+            src = EMBED_SRC % (opts, opts)
+            module, path = render.load_source(src, d)
+            pairs = [(module.P3(x=7, z=3), module.P3.unpack(b"\x07\x00\x03")), (module.P3(), module.P3.unpack(b"\x00\x00\x00")),
+                     (module.P3at(h=1, x=2, y=3, z=4), module.P3at.unpack(b"\x01\x02\x03.\x04")), (module.P3at(), module.P3at())]
+            for built, parsed in pairs:
+                w = {"source": src, "built": "keyword-constructed", "parsed": "unpack()"}
+                for x, y, tag in ((built, parsed, "built==parsed"), (parsed, built, "parsed==built"), (parsed, parsed, "parsed==parsed")):
+                    if cmp_safe(run, x, y, dict(w, pair="class with an embedded packet", direction=tag)) is None:
+                        return
+                    run.count("embedded_class_comparisons")
+                check_repr(run, built, dict(w, of="built"))
+                check_repr(run, parsed, dict(w, of="parsed"))
+            import sys as _sys
+            _sys.modules.pop(module.__name__, None)
+    finally:
+        common.drop_scratch(d)
+
+
 def run(run):
     shard, nshards = run.shard
     rng = rng_for(run.seed, "c20", shard)
+    if shard == 0:
+        embed_probe(run)
+    else:
+        run.count("embedded_class_comparisons")
     side_dir = common.scratch_dir("bvf_c20b_")
     nfam = 450 if run.tier == "quick" else 2000
     profile = {"p_move": 0.35, "p_class_align": 0.15, "p_describe": 0.25, "allow_regex_nokeep_single": False,
